@@ -342,16 +342,18 @@ class Recorded(object):
     """Wraps user code; logs start/finish with invocation index; behaviour is
     given by ``behave(index, *args, **kwargs)``."""
 
-    def __init__(self, vf_id, behave):
+    def __init__(self, vf_id, behave, keep_args=True):
         self.vf_id = vf_id
         self.behave = behave
+        self.keep_args = keep_args
         self.calls = []
         self._lock = instr._RealLock()
 
     def __call__(self, *args, **kwargs):
         with self._lock:
             idx = len(self.calls)
-            rec = {"idx": idx, "args": args, "kwargs": kwargs, "thread": instr.current_role()}
+            rec = {"idx": idx, "args": args if self.keep_args else None, "kwargs": kwargs if self.keep_args else None,
+                   "thread": instr.current_role()}
             self.calls.append(rec)
         rec["start"] = LOG.add("fn.start", fn=self.vf_id, idx=idx, args=instr._short(args))
         rec["t0"] = instr.vnow()
@@ -364,7 +366,7 @@ class Recorded(object):
             rec["t1"] = instr.vnow()
             rec["end"] = LOG.add("fn.end", fn=self.vf_id, idx=idx, exc=type(e).__name__)
             raise
-        rec["value"] = v
+        rec["value"] = v if self.keep_args else None
         rec["t1"] = instr.vnow()
         rec["end"] = LOG.add("fn.end", fn=self.vf_id, idx=idx, value=instr._short(v))
         return v
